@@ -447,3 +447,62 @@ func TestVerifServerHardLimit(t *testing.T) {
 	}
 	rec.Set("rule", "cache filled to max_size_hard_limit (= max_size, so that eviction alone could make room) x 10 write paths x both storage modes")
 }
+
+// C18 at the server level: max_blob_size is a limit on the logical size, on every write path,
+// compressed or not: limit-1 and limit are accepted, limit+1 is refused with a client error and
+// stores nothing.  Incompressible data makes the zstd wire size exceed the logical size.
+func TestVerifServerBlobLimits(t *testing.T) {
+	rec := vNewRecorder(t, "srvlimit")
+	defer rec.Close(t)
+	rng := vNewRand("srvlimit")
+	web := vNewWeb()
+	defer web.srv.Close()
+	paths := []string{"httpPut", "httpPutCL", "httpPutZstd", "batch", "batchZstd", "bsWrite", "bsWriteZstd", "acInline", "acInlineStdout", "fetchBlob"}
+	rec.Set("rule", "max_blob_size in {1, 4096, 70000} x 10 write paths x both storage modes x logical size in {limit-1, limit, limit+1}, incompressible and compressible data")
+	for _, mode := range []string{"zstd", "uncompressed"} {
+		for _, limit := range []int{1, 4096, 70000} {
+			f := vNewFix(t, vFixOpts{mode: mode, maxBlob: int64(limit), validateAC: true})
+			for _, p := range paths {
+				for _, n := range []int{limit - 1, limit, limit + 1} {
+					if n <= 0 {
+						continue
+					}
+					for _, compressible := range []bool{false, true} {
+						rec.Case()
+						u := vMakeUpload(rng, p, "good", n)
+						if compressible {
+							d := make([]byte, n)
+							for i := range d {
+								d[i] = byte('a' + (i/64)%3)
+							}
+							d[0] = byte(rng.Intn(256)) // distinct blobs
+							if n > 8 {
+								copy(d[1:], fmt.Sprintf("%07d", rng.Intn(9999999)))
+							}
+							u = vUpload{path: p, kind: "good", data: d, declHash: vSha(d), declSize: int64(n), logical: d}
+						}
+						acked, detail := f.vDoUpload(t, rng, u, web)
+						sig := fmt.Sprintf("%s.%s limit=%d size=%d compressible=%v", mode, p, limit, n, compressible)
+						rec.Note(sig + fmt.Sprintf(" -> acked=%v %s", acked, detail))
+						rec.Count(fmt.Sprintf("%s.%v", map[bool]string{true: "within", false: "above"}[n <= limit], acked))
+						rec.Distinct(sig)
+						// an ActionResult that inlines a blob of about the limit is itself an item above the
+						// limit (the message is larger than its contents): only the refusal side applies there
+						inlined := strings.HasPrefix(p, "acInline")
+						if n <= limit && !acked && !inlined {
+							rec.Violation("C18", "limit.refused-within."+p, sig+": refused ("+detail+") although the logical size is within max_blob_size", nil)
+						}
+						if n > limit {
+							if acked {
+								rec.Violation("C18", "limit.accepted-above."+p, sig+": accepted although the logical size exceeds max_blob_size", nil)
+							} else if miss, _ := f.vMissing(u.declHash, u.declSize); !miss {
+								rec.Violation("C18", "limit.stored-above."+p, sig+": refused but present afterwards", nil)
+							}
+						}
+					}
+				}
+			}
+			f.Close()
+		}
+	}
+}
